@@ -81,6 +81,15 @@ def gen_file_session(rng, rel, max_tr=40, nrandom=15, mk=True):
             o = zoneinfo_obs(zi, t)
             if o is not None:
                 yield {"op": "ref", "a": {"impl": "zoneinfo", "scale": "utc", "t": W(t), "obs": o}}
+    if mk and is_right:
+        # right/ files: the crate's own searches around the transitions that lie within a day of a leap second (the spec is the arbiter;
+        # glibc's mktime works on the leap-count scale and is not used here)
+        for t in times:
+            if any(abs(t - r0) <= 90000 for (r0, _) in leaps):
+                u = t - corr_at(t)
+                for o in offs:
+                    for d in (-2, -1, 0, 1):
+                        yield {"op": "find", "a": gens.fields_of_local(u + o + d, 0)}
     if mk and not is_right:
         recent = [t for t in sel if t >= 0][-12:]
         exact = [(t, o, d) for t in recent[-3:] for o in offs for d in (-1, 0, 1)]          # the exact boundary seconds of the last transitions
